@@ -19,24 +19,34 @@ RULE = ('random JSON values (nesting <= 6, <= ~60 nodes) over a small shared key
         'temporary file; a few wide documents per run (arrays, record lists and objects of 33-257 entries); thorough '
         'adds all pairs of 18 small documents in three shapes. A case is non-trivial when the import makes at least two '
         'tables or filters something.')
-TRUSTED = ['Model/JsonImport.v is hand-written; it is compared on every run with import_json.dumps / Tables.add_row / '
-           'Tables._tables on the generated documents (dumped tables, their order, column order and types, row counts)',
-           'json.loads (CPython): the model starts from the Python value it returns (dict keys unique)',
-           'the model replays the mutation history of Row objects as an event log; the log-to-tables step is part of '
-           'the model and is covered by the same comparison']
+TRUSTED = ['translator harness/ij2v*.py: Python subset -> Gallina; on every run it regenerates coq/gen/JsonImport_gen.v from '
+           'imports/import_json.py (GRIST_TYPES, option parsing, _is_included, first_available_key, _grist_type, _dump_value, '
+           '_transpose, _dump_table, _dictify, Tables.add_row) and is validated by evaluating the generated definitions with '
+           'vm_compute against the running functions (whole pipeline on every generated document + direct arguments)',
+           'Model/JsonImportPy.v: the Python primitives the generated code is written in (str/list/OrderedDict operations, '
+           'type(), the bounded search standing for next(... count(2))), and the encoding of the object state of add_row '
+           '(self._tables and the Row objects mutated after they were appended) as an event log decoded by rtables; '
+           'dumps()/Tables.dumps()/the namedtuples are not translated but pinned by AST equality',
+           'Model/JsonImport.v is hand-written; bridged to the generated functions by proofs (C33_bridge_*) and also compared '
+           'on every run with import_json.dumps / Tables._tables on the generated documents',
+           'json.loads (CPython): the model starts from the Python value it returns (dict keys unique)']
 ASSUMPTIONS = ['dict keys are pairwise different (wf_json: true of every Python dict)',
                'floats are carried as their IEEE-754 bit pattern; the importer only copies them',
                'theorems about table contents are stated on the tables before _dump_value (references still carry '
                'their table); what _dump_value/_grist_type lose is stated separately (C33_refuted_rowless, '
                'C33_refuted_column_type and the positive decodability theorems)']
-TECHNIQUE = 'Coq proof over a hand-written executable model + differential cases (vm_compute) + reconstruction oracle on the implementation'
+TECHNIQUE = ('Coq proof over a hand-written executable model bridged by proof to the functions regenerated from source on every '
+             'run (ij2v) + differential cases (vm_compute) + reconstruction oracle on the implementation')
 LEVEL_TEXT = ('Kernel-checked theorems, by induction on the JSON value (no bound on depth or width), about an executable '
               'model of Tables.add_row/_transpose/_dump_table: columns are rectangular, top-level items are the rows of '
               'the main table, nested objects are referenced from their parent cell, array elements point back to their '
               'parent row, and the multiset of (table, key, scalar) of the document equals that of the scalar cells, '
-              'under include/exclude filtering. The model is compared with the running importer on generated documents '
-              'each run and a reconstruction oracle is run on the implementation.')
-LEVEL_NOTE = ('Trusted: Coq kernel, the hand-written model (validated differentially each run), json.loads. Two defects of '
+              'under include/exclude filtering. The deciding functions are regenerated from import_json.py on every run and '
+              'proved pointwise equal to the model (C33_bridge_*), rectangularity and the parent back-reference are restated '
+              'about the generated functions (C33_code_*); the model is also compared with the running importer on generated '
+              'documents and a reconstruction oracle is run on the implementation.')
+LEVEL_NOTE = ('Trusted: Coq kernel, the translator ij2v and its Python primitives/state encoding (validated differentially '
+              'each run), the pinned glue dumps()/Tables.dumps(), json.loads. Two defects of '
               'the unchanged code are proved as refutations and registered as known findings: tables without columns '
               'lose their row count; a column type is taken from one cell only, so reference cells of another table (or in a '
               'scalar-typed column) lose their target.')
@@ -517,7 +527,7 @@ def gen_wide(rng):
 
 def cases(ctx):
   cs = list(FIXED)
-  for _ in range(ctx.n(700, 40000)):
+  for _ in range(ctx.n(500, 40000)):
     cs.append(gen_case(ctx.rng))
   for _ in range(ctx.n(6, 60)):
     cs.append(gen_wide(ctx.rng))
@@ -640,7 +650,7 @@ def correspond(ctx):
                          shard=shard, timeout=900, extra_defs=CODE_CASE_DEFS)
     bad = ctx.run_cases('model', ['Grist.Model.JsonImport'], 'case_ok', [coq[i] for i in both], shard=shard) if both else []
     bad = [both[i] for i in bad]
-    badgen = ctx.run_cases('code', GEN_IMPORTS, 'code_case_ok', [coq[i] for i in both], shard=shard,
+    badgen = ctx.run_cases('code', ['Grist.Model.JsonImport'] + GEN_IMPORTS, 'code_case_ok', [coq[i] for i in both], shard=shard,
                            extra_defs=CODE_CASE_DEFS) if both else []
     badgen = [both[i] for i in badgen]
   except core.TieBroken as e:
